@@ -856,7 +856,7 @@ void World::exec_env_op(const Step& s)
         if (check(CK_RELOAD))
         {
             Outcome o1 = call(FaultSpec{}, [&] {
-                if (!eng::database_exists(dir))
+                if (!eng::database_exists(api_dir()))
                     report("C10", "C10|database_exists|" + fam() + "|false-on-existing",
                            "database_exists() is false for an existing library");
             });
@@ -868,7 +868,7 @@ void World::exec_env_op(const Step& s)
                 eng::engine_schema ls = static_cast<eng::engine_schema>(12345);
                 std::optional<dj::database> tmp;
                 Outcome o2 = call(FaultSpec{}, [&] {
-                    tmp = eng::create_or_load_database(dir, eng::latest_schema, created, ls);
+                    tmp = eng::create_or_load_database(api_dir(), eng::latest_schema, created, ls);
                 });
                 if (o2.threw)
                     report("C10", "C10|create_or_load|" + fam() + "|threw", "create_or_load threw " + o2.exc + ": " + o2.what);
